@@ -14,6 +14,12 @@ Streams
   (L) larger fragments: |other| 9..16, |self| >= |other|, identity maps that cover all but 2..4 atoms of other, the
       unmapped indices spread over low (< 8) and high (>= 8) positions, with terms that touch the unmapped atoms
       (the order in which the few new atoms are appended, and where the terms land, only shows here);
+  (K) known finding, reproduced on every run: default-offset extends in which exactly ONE kind breaks the
+      compatibility clause of the Lean theorem `extend_resolves` (self uses ids of that kind beyond its own coefficient
+      table - no table, or a short one - while other brings a table; or self has atom types but no pair-coefficient
+      table while other has one).  The resolution clause is demanded there like everywhere else; the failure caused by
+      the misalignment in `extend_types` is reported with the tag "coefficient-table-misaligned" (matched by
+      known_findings.json), anything else stays untagged.  Model and code agree on these cases (tie kept);
   (m) malformed maps (non-injective values, key / value outside the arrays): model-vs-code only.
 
 The oracle works on canonical dumps only and never looks at the model.
@@ -32,9 +38,10 @@ RULE = ("pairs (self, other) of random consistent Atoms (1..3 atoms quick / 1..4
         "coefficient tables present or absent, extra columns on atoms and terms with overlapping / disjoint labels; "
         "offsets default, explicit zero, or those returned by extend_types; override stream with forward / reversed / "
         "permuted listings, duplicate and palindromic terms; twice-extension with shared offsets; larger fragments "
-        "(9..16 atoms, all but 2..4 mapped, unmapped indices both below and above 8, terms on the unmapped atoms). Text resolution is "
-        "demanded only where it is defined (per kind: self's coefficient table covers all ids self uses, or other "
-        "brings no table; pair table complete or absent on other's side). Non-trivial = distinct input in which other "
+        "(9..16 atoms, all but 2..4 mapped, unmapped indices both below and above 8, terms on the unmapped atoms). Text resolution of new ids is "
+        "demanded everywhere; where self uses ids beyond its own coefficient table (or has no pair table) while other "
+        "brings one, the failure is attributed to the known finding coefficient-table-misaligned (a dedicated stream "
+        "reproduces it on every run for one kind at a time), every other failure is reported untagged. Non-trivial = distinct input in which other "
         "has at least one term and (the map is non-empty or an existing term is superseded).")
 
 
@@ -77,7 +84,7 @@ def resolvable(a, b, k):
     return len(a["types"][k]) == n or (not b["types"][k] and len(a["types"][k]) <= n)
 
 
-def oracle_extend(a, b, offsets, mp, r, side=None):
+def oracle_extend(a, b, offsets, mp, r, side=None, exempt=True):
     """a, b = dumps before; r = result of a.extend(b, offsets, map) ({'ok': dump} or {'err': ..}). None or text."""
     if "ok" not in r:
         return "extend with a valid identity map raised %s" % r.get("err")
@@ -146,8 +153,8 @@ def oracle_extend(a, b, offsets, mp, r, side=None):
         if tr[:len(ta)] != ta:
             return "table %s: existing entries moved or changed" % k
         if offsets is None:
-            if not resolvable(a, b, k):
-                continue
+            if exempt and not resolvable(a, b, k):
+                continue    # looked at separately (exempt=False) and attributed to the known finding
             o = off["atom"] if k in ATOM_TABLES else off[k]
             ids = {t["ty"] for t in b["terms"][k]} if k in KINDS else {x["ty"] for x in b["atoms"]}
             for ty in sorted(ids):
@@ -435,10 +442,7 @@ def supersedes(inp):
 def check_extend(ctx, stream, inp):
     """run one extend on the real code, apply the oracle; returns the implementation result for the tie"""
     r, side = _extend(inp["a"], inp["b"], inp["offsets"], inp["map"])
-    bad = oracle_extend(inp["a"], inp["b"], inp["offsets"], inp["map"], r, side)
-    if bad is None and inp.get("via") == "extend_types":
-        # the two-step form must give ids that resolve to other's text in the tables extend_types built
-        bad = oracle_resolves_explicit(inp, r)
+    bad, known = judge(inp, r, side)
     has_terms = any(inp["b"]["terms"][k] for k in KINDS)
     sup = supersedes(inp)
     ctx.case(inp, nontrivial=has_terms and (bool(inp["map"]) or sup))
@@ -449,10 +453,33 @@ def check_extend(ctx, stream, inp):
         ctx.count("supersedes")
     if bad:
         ctx.fail(bad, inp, observed=r)
+    if known:
+        ctx.count("known:" + MISALIGNED)
+        ctx.fail(known, inp, observed=r, tags=[MISALIGNED])
     return r
 
 
-def oracle_resolves_explicit(inp, r):
+MISALIGNED = "coefficient-table-misaligned"
+
+
+def judge(inp, r, side=None):
+    """-> (untagged failure or None, failure attributed to the known finding or None).
+    First everything except the resolution of ids of kinds that break the compatibility clause; if that is fine, the
+    resolution clause for those kinds too: what fails then fails because extend_types put other's table entries at
+    len(table).. while other's ids start at max(id)+1.. (or appended other's pair table to an empty one)."""
+    def full(exempt):
+        bad = oracle_extend(inp["a"], inp["b"], inp["offsets"], inp["map"], r, side, exempt=exempt)
+        if bad is None and inp.get("via") == "extend_types":
+            # the two-step form must give ids that resolve to other's text in the tables extend_types built
+            bad = oracle_resolves_explicit(inp, r, exempt=exempt)
+        return bad
+    bad = full(True)
+    if bad:
+        return bad, None
+    return None, full(False)
+
+
+def oracle_resolves_explicit(inp, r, exempt=True):
     """offsets came from extend_types on a0: new ids must resolve (in the result) to other's own text"""
     a0, b = inp["a0"], inp["b"]
     if "ok" not in r:
@@ -460,7 +487,7 @@ def oracle_resolves_explicit(inp, r):
     tr = r["ok"]["types"]
     off = dict(zip(["atom"] + KINDS, inp["offsets"]))
     for k in ATOM_TABLES + KINDS:
-        if not resolvable(a0, b, k):
+        if exempt and not resolvable(a0, b, k):
             continue
         o = off["atom"] if k in ATOM_TABLES else off[k]
         ids = {t["ty"] for t in b["terms"][k]} if k in KINDS else {x["ty"] for x in b["atoms"]}
@@ -470,6 +497,40 @@ def oracle_resolves_explicit(inp, r):
             if own != res:
                 return "extend_types + extend: table %s, other's id %d -> %d resolves to %r, own text %r" % (k, ty, ty + o, res, own)
     return None
+
+
+# (kind or "pair", how self breaks the clause)
+MISALIGN_VARIANTS = [(k, how) for how in ("no-table", "short-table") for k in KINDS] + [("pair", "no-table")]
+
+
+def misaligned_case(rng, k, how):
+    """two structures that are compatible in every kind except `k`: self uses ids of kind k beyond its own table
+    (none / too short) and other brings a table with terms of that kind; k = "pair": self has no pair table, other has"""
+    for attempt in range(200):
+        na, nb = rng.randint(4, 6), rng.randint(4, 6)
+        a = gen.rand_atoms(rng, n=na, kinds=KINDS, coeffs=True, pair=(k != "pair"), cell=False,
+                           term_density=rng.randint(1, 3), extras=False)
+        b = gen.rand_atoms(rng, n=nb, kinds=KINDS, coeffs=True, pair=True, cell=False, term_density=rng.randint(1, 2),
+                           extras=False)
+        if k != "pair":
+            if how == "no-table":
+                a["types"][k] = []
+            else:
+                a["terms"][k][0]["ty"] = max(t["ty"] for t in a["terms"][k]) + 1   # one id more than ...
+                a["types"][k] = a["types"][k][:a["terms"][k][0]["ty"]]             # ... the table covers
+                if not a["types"][k]:
+                    continue
+        a, b = _norm(a), _norm(b)
+        broken = [kk for kk in ATOM_TABLES + KINDS if not resolvable(a, b, kk)]
+        if broken == [k]:
+            return a, b, rand_map(rng, nb, na, pmap=0.5)
+    raise RuntimeError("could not build a %s/%s case" % (k, how))
+
+
+def known_cases(ctx):
+    n = ctx.n(4, 27)
+    start = (ctx.seed * 4) % len(MISALIGN_VARIANTS)
+    return [MISALIGN_VARIANTS[(start + i) % len(MISALIGN_VARIANTS)] for i in range(n)]
 
 
 def twice_cases(ctx):
@@ -520,6 +581,16 @@ def run(ctx, oracle_only=False):
     for stream, inp in cases(ctx):
         r = check_extend(ctx, stream, inp)
         ops.append({k: v for k, v in inp.items() if k not in ("via", "a0")})
+        impls.append(r)
+    # (K) the known finding, one kind at a time
+    for k, how in known_cases(ctx):
+        a, b, mp = misaligned_case(ctx.rng, k, how)
+        inp = {"op": "extend", "a": a, "b": b, "offsets": None, "map": mp}
+        nk = ctx.dist.get("known:" + MISALIGNED, 0)
+        r = check_extend(ctx, "K:%s:%s" % (k, how), inp)
+        if ctx.dist.get("known:" + MISALIGNED, 0) == nk and not any(f["input"] is inp for f in ctx.failures):
+            ctx.notes.append("stream K: %s/%s did not reproduce coefficient-table-misaligned" % (k, how))
+        ops.append(inp)
         impls.append(r)
     # extend_types on its own
     rng = ctx.rng
@@ -606,7 +677,5 @@ def replay(ctx, rec):
         r2, _ = _extend(r1["ok"], b, et["offsets"], [])
         return oracle_twice(a, b, et["offsets"], r1, r2) is None
     r, side = _extend(inp["a"], inp["b"], inp["offsets"], inp["map"])
-    bad = oracle_extend(inp["a"], inp["b"], inp["offsets"], inp["map"], r, side)
-    if bad is None and inp.get("via") == "extend_types":
-        bad = oracle_resolves_explicit(inp, r)
-    return bad is None
+    bad, known = judge(inp, r, side)
+    return bad is None and known is None
